@@ -62,6 +62,9 @@ pub fn for_each_program(tier: Tier, sink: &mut dyn FnMut(Program)) {
     for (t, e) in g.never_family() {
         push(mk(gen::ret_body(e), t, "never"));
     }
+    for (t, e) in g.never_nested() {
+        push(mk(gen::ret_body(e), t, "never_nested"));
+    }
     // statement templates: holes over leaves + depth-1
     let mut pool = d1.clone();
     for t in Ty::ALL {
